@@ -237,6 +237,29 @@ def task_enum(spec, summ):
     return judge_pairs(spec, summ, flags, pairs, meta)
 
 
+RULE_SWEEP_TASKS = 36
+
+
+def task_rule_sweep(spec, summ):
+    """Reflexivity over the deterministic rule sweep of C01 (every rule pattern in six shapes: plain, consumed, constants, used
+    twice, inner term left on the stack, inner term read by another instruction): the front-end must not raise on any."""
+    from gsim.checks import c01
+    k = spec["index"] - ENUM_TASKS
+    pairs, meta = [], []
+    for b in c01.rule_sweep_blocks(k):
+        b = [it for it in b if it[0] not in AJ.END_SET]
+        if b and b[-1][0] == "PUSH":
+            b = b[:-1]           # (the jump target of the sweep's terminator)
+        if not legal(b, 16):
+            continue
+        ta = AJ.items_to_text(b, 2)
+        pairs.append([ta, ta])
+        meta.append((b, b, "reflexive"))
+    flags = [[], ["-size"], ["-partition"], ["-push0"], ["-pop-uninterpreted"], ["-storage"]][k % 6]
+    summ["probes"]["rule_sweep_blocks"] = len(pairs)
+    return judge_pairs(spec, summ, flags, pairs, meta)
+
+
 def judge_pairs(spec, summ, flags, pairs, meta):
     i = spec["index"]
     viols = []
@@ -491,6 +514,8 @@ def task(spec):
     i = spec["index"]
     if i < ENUM_TASKS:
         viols = task_enum(spec, summ)
+    elif i < ENUM_TASKS + RULE_SWEEP_TASKS:
+        viols = task_rule_sweep(spec, summ)
     elif i % 8 == 6:
         viols = task_corrupt_peer(spec, summ)
     elif i % 8 in (5, 7):
